@@ -60,7 +60,7 @@ def apply_patch(scratch, patch_path):
 def violations_on(repo_dir, pid):
     """run the property's rules on an arbitrary tree; returns (violation keys, errors)"""
     d, th = extract.ensure_facts("default", repo=repo_dir)
-    F = Facts(d, th)
+    F = Facts(d, th, repo=repo_dir)
     res = core.run_rules(F, props.rules_for(pid))
     keys = [i["key"] for r in res for i in r.violations]
     errs = [e for r in res for e in r.errors]
